@@ -6,6 +6,8 @@ import Arca.Driver.Loop
 import Arca.Driver.Builtins
 import Arca.Driver.Parse
 import Arca.Driver.Provider
+import Arca.Driver.Prepare
+import Arca.Driver.Foreach
 
 open Lean (Json)
 open Arca.Driver
@@ -26,7 +28,19 @@ def cmdLoop (args : List String) : IO Unit := do
     | .error e => stdout.putStrLn (Json.mkObj [("verdict", "bad-json"), ("detail", e)]).compress
     | .ok c =>
       let out := runLoopCase c errCap noFns
-      stdout.putStrLn (Json.mkObj [("id", getStr c "id"), ("verdict", out.verdict), ("detail", out.detail)]).compress
+      stdout.putStrLn (Json.mkObj [("id", getStr c "id"), ("verdict", out.verdict), ("detail", out.detail),
+        ("illegal_events", out.illegal)]).compress
+    stdout.flush
+
+def cmdForeach (_args : List String) : IO Unit := do
+  let stdin ← IO.getStdin
+  let stdout ← IO.getStdout
+  eachLine stdin fun line => do
+    match Json.parse line with
+    | .error e => stdout.putStrLn (Json.mkObj [("verdict", "bad-json"), ("detail", e)]).compress
+    | .ok c =>
+      let (verdict, detail) := runForeachCase c
+      stdout.putStrLn (Json.mkObj [("id", getStr c "id"), ("verdict", verdict), ("detail", detail)]).compress
     stdout.flush
 
 def main (args : List String) : IO UInt32 := do
@@ -35,4 +49,6 @@ def main (args : List String) : IO UInt32 := do
   | "builtins" :: rest => cmdBuiltins rest; return 0
   | "parse" :: rest => cmdParse rest; return 0
   | "provider" :: rest => cmdProvider rest; return 0
+  | "prepare" :: rest => cmdPrepare rest; return 0
+  | "foreach" :: rest => cmdForeach rest; return 0
   | _ => IO.eprintln "usage: arcadrv loop [errCap]"; return 2
